@@ -94,7 +94,8 @@ def ev(e, env):
             q = abs(a) // abs(b)
             if (a < 0) != (b < 0):
                 q = -q
-            r = _s(q) if op == '/' else a - q * b
+            _s(q)  # if the quotient is not representable both a / b and a % b are undefined (C11 6.5.5p6)
+            r = q if op == '/' else a - q * b
         return (r % M64, True) if u else (_s(r), False)
     if op in ('+', '-', '*'):
         r = a + b if op == '+' else a - b if op == '-' else a * b
